@@ -20,7 +20,7 @@ def _f2(ctx):
 
 STRUCTURAL = [_f2]
 
-VALIDATION = [validate_bs4]
+VALIDATION = [validate_bs4, validate_ir]
 
 FUNCTIONS = FUNCTIONS + [q for q in CACHE + LANG + INDET if q not in FUNCTIONS]
 STRUCTURAL = (globals().get('STRUCTURAL') or []) + [indet_structural]
